@@ -278,7 +278,7 @@ def build(e, dtype):
         for step in e.get("then", []):              # construction history: conversions applied before the case starts
             o = sq.apply_then(o, step)
         return o
-    if any(isinstance(v, dict) and v.get("cls") == "X" for v in sub_exprs(e)):
+    if any(isinstance(v, dict) and v.get("cls") == "X" for v in all_subs(e)[1:]):
         return _build_mixed(e, dtype)
     return ob.build(e, dtype)
 
@@ -751,15 +751,19 @@ def run_case(meta, e, src, defdt, rg, q, heavy=True, defdt0=None, mixed=False):
             c.dt0 = o.dtype
         except Exception:
             c.dt0 = None
-        fl = float_leaf_tensors(o)
-        c.incons = bool(c.dt0 is not None and any(t.dtype != c.dt0 for t in fl))
+        c.snap0 = sq.snapshot(o)
+        # is the ORIGINAL already inconsistent: more than one floating dtype among the dtype attributes of its nodes
+        # (nominal dtypes of data-free operators included) and its floating tensors?
+        dts = {n["dtype"] for n in c.snap0["nodes"] if n["dtype"] in ("torch.float32", "torch.float64")} | \
+              {t["dtype"] for t in c.snap0["tensors"] if t["dtype"] in ("torch.float32", "torch.float64")}
+        c.incons = len(dts) > 1
         c.d_in, c.d_in_exc = None, None
         if q[0] not in ("repr", "dtype", "returned", "rgset"):
             try:
                 c.d_in = o.to_dense().detach().clone()
             except Exception as ex:
                 c.d_in_exc = "%s: %s" % (type(ex).__name__, str(ex)[:80])
-        c.snap0 = sq.snapshot(o)
+        c.snap0 = sq.snapshot(o)        # (again: to_dense() above must not count as part of the call)
         res = None
         try:
             if q[0] == "repr":
@@ -1034,11 +1038,15 @@ def grid(ctx):
     return cells
 
 
+UNBUILDABLE = []
+
+
 def _buildable(e):
     try:
         build(e, torch.float64)
         return True
-    except Exception:
+    except Exception as ex:
+        UNBUILDABLE.append("%s: %s" % (describe(e), type(ex).__name__))
         return False
 
 
@@ -1141,6 +1149,12 @@ def finding_key(meta, c, f):
         nom = nominal_in(e2)
         if nom and cls not in NOMINAL_PY:
             return dict({"class": nom[0], "fail": "nominal-dtype", "obs": "original-inconsistent"}, **extra), e2, q2, f2
+    if kind == "source-changed:tensor-requires_grad" and f2.get("before", "").endswith("rg=False"):
+        kr = [root_class(x) for x in all_subs(e2) if root_class(x) in ("Kron", "KronTriangular", "KronDiag", "SumKron", "KronAddedDiag")]
+        if kr:
+            # the same constructor step, reached through an operation that rebuilds a Kronecker operator around the
+            # ORIGINAL's own tensors (BatchRepeat._getitem ...): the flag spreads onto a tensor of the original
+            return dict({"class": "Kron", "fail": "requires_grad", "obs": "source"}, **extra), e2, q2, f2
     if kind == "requires_grad" and cls != "Kron" and spread_only(f2):
         kr = [root_class(x) for x in all_subs(e2) if root_class(x) in ("Kron", "KronTriangular", "KronDiag", "SumKron", "KronAddedDiag")]
         if kr:
@@ -1328,6 +1342,7 @@ def run(ctx):
                 "operator whose data dtype differs from the default dtype or that nests at least one sub-operator; distinct by (class "
                 "tree, data dtype, default dtype, query family)",
         "cells": len(cells), "skipped_cells": skipped[:20], "n_skipped": len(skipped),
+        "unbuildable_family_expressions": sorted(set(UNBUILDABLE))[:30], "n_unbuildable_family_expressions": len(set(UNBUILDABLE)),
         "model_mismatches": len(mism), "not_well_formed": len(notwf), "repaired_finding_cells": repaired, "spec_compared": nconv, "spec_mismatches": len(badconv), "direct_property_failures": n_direct,
         "cases_with_failing_predicate": sum(1 for c in cases if c.fails),
         "queries": dist, "classes": cls_seen, "n_classes": len(cls_seen),
